@@ -103,6 +103,12 @@ func solve(vc *VC, o *Obligation, outDir string, timeoutMs int, seed int, all bo
 		res.Solver = "trivial"
 		return res
 	}
+	if !o.MustFail && o.Goal.s == "false" && o.Guard.s == "true" && o.Kind != "own" {
+		res.Status = "sat"
+		res.Solver = "trivial"
+		res.Detail = "structural obligation: " + o.Note
+		return res
+	}
 	text := smtText(vc, o, seed)
 	if o.MustFail {
 		text = weaken(text)
